@@ -1534,7 +1534,10 @@ pub fn c10_profiles(quick: bool) -> Vec<(Profile, u64)> {
         add(c17_profiles(true), 1);
         add(shrink(c18_profiles(true), 1), 1);
         add(c07_profiles(true), 1);
+        // compaction relocates pages and stages their roots on a separate path
+        add(shrink(c13_profiles(true), 1), 1);
     } else {
+        add(c13_profiles(true), 1);
         add(c04_profiles(true), 13);
         add(c09_profiles(true), 8);
         add(c17_profiles(true), 1);
